@@ -294,7 +294,14 @@ func (e *concEngine) submit(r *rand.Rand, p, n int) {
 	}
 	kind := kinds[r.Intn(len(kinds))]
 	if kind == "unmatched" {
-		rid = []string{"svc.nomatch.x", "other.res.1", "svc.res", "svc.tag.g1"}[r.Intn(4)]
+		// no handler matches: other names, too few or too many tokens, and near
+		// misses around the service name, separators and empty tokens
+		unmatched := []string{"svc.nomatch.x", "other.res.1", "svc.res", "svc.tag.g1", "svcXres.1", "svc_res.1", "svcres.1", "svcsres.1?q=1",
+			"svc", "sv.res.1", "svc.res.1.x", "svc.mnt", "svc.mnt.item", "svc.mntXitem.1",
+			"svc.mnt.wk.a.1", "Svc.res.1", "svc.RES.1", "svc.par.1.2", "svc.sa"}
+		// (names that are not valid resource ids - empty tokens, wildcard characters - are left out: the property
+		// speaks about resource ids)
+		rid = unmatched[r.Intn(len(unmatched))]
 	}
 	s := e.newSub(p, n, kind, rid)
 	if e.cfg.Baton {
